@@ -139,23 +139,36 @@ def decide_close(ob, name, p, code, ref, tol, *, domain=None, oracle=None, make_
 
 
 def decide_goal(ob, name, conds, goal, *, timeout_s=30, seed=0, oracle=None, args_from_model=None, key=None,
-                pid=None, detail='', vars_=None, paths=1):
-    """Generic: prove goal under conds; a sat model is turned into replay args by args_from_model(env)."""
+                pid=None, detail='', vars_=None, paths=1, domain=None, num_conds=None, extra_points=()):
+    """Generic: prove goal under conds. A sat model is turned into replay args by args_from_model(env); when the solver
+    gives no usable model and `domain`/`num_conds` are given, numeric witness candidates (points of the stated box that
+    satisfy num_conds and falsify the goal under the true functions) are replayed instead."""
     v = solve.prove(conds, goal, timeout_s=timeout_s, seed=seed)
     qs = [qrec('valid', v)]
+    _dbg(ob, name, v)
     if v.status == 'unsat':
         return res(ob, name, 'proved', qs, detail, paths=paths)
-    if v.status == 'sat' and v.model is not None and oracle is not None and args_from_model is not None:
-        fv = vars_ if vars_ is not None else solve.free_vars(list(conds) + [goal])
-        env = solve.model_env(v.model, fv)
-        args = args_from_model(env)
-        if args is not None:
+    tried = None
+    if oracle is not None and args_from_model is not None:
+        envs = []
+        if v.status == 'sat' and v.model is not None:
+            fv = vars_ if vars_ is not None else solve.free_vars(list(conds) + [goal])
+            envs.append(solve.model_env(v.model, fv))
+        if domain is not None and num_conds is not None:
+            fv = solve.free_vars(list(num_conds) + [goal])
+            if all(k in domain for k in fv):
+                envs += sample_envs(fv, {k: domain[k] for k in fv}, list(num_conds) + [z3.Not(goal)], n=4, seed=seed,
+                                    extra_points=extra_points)
+        for env in envs[:5]:
+            args = args_from_model(env)
+            if args is None:
+                continue
             viol, msg, path = replay.confirm(pid, ob, key or ob, oracle, args)
             if viol is True:
                 return res(ob, name, 'violated', qs, msg, key=key or ob, witness=args, replay_path=path, paths=paths)
-            return res(ob, name, 'inconclusive', qs, '%s solver sat but witness did not reproduce: %s' % (detail, msg),
-                       witness=args, paths=paths)
-    return res(ob, name, 'inconclusive', qs, '%s solver=%s' % (detail, v.status), paths=paths)
+            tried = msg
+    return res(ob, name, 'inconclusive', qs, '%s solver=%s%s' % (detail, v.status, ('; witness did not reproduce: %s' % tried) if tried else ''),
+               paths=paths)
 
 
 def ground_violation(ob, name, pid, key, oracle, args, detail='', queries=()):
